@@ -190,7 +190,14 @@ class C19(Check):
         "scheduler policy (random, sticky, PCT, burst) x write chunk size x "
         "0-2 faults per epoch (kill, kill inside a write, interrupt before / "
         "after an operation, short write, stall; ENOSPC/EIO/EACCES only in the "
-        "io-fault configuration), always followed by one fault-free start. "
+        "io-fault configuration, also EBUSY/EXDEV/EROFS/EPERM and a refused "
+        "publishing rename followed by a kill), always followed by one "
+        "fault-free start. Per process also: another locale encoding (15%), "
+        "python -O (6%), environment variables evo's code was seen to read "
+        "(discovery pass), an older release of evo for the first epoch (12%: "
+        "older version string, fewer parameters); 8% write-protected "
+        "settings.json; non-ASCII, non-finite (nan, inf, 1e999 nested in merge "
+        "files) and comment-/JSON-like string values. I1 parses strictly. "
         "fixed cases: crash-point sweep - for each canonical single-process "
         "workload x initial state x chunk size, one case per yield point and "
         "crash kind - plus all schedules of 2 racing starts with <= 2 "
